@@ -246,7 +246,7 @@ class Boom(Exception):
 
 
 def run(ctx):
-    n = 60 if ctx.tier == "quick" else 220
+    n = 60 if ctx.tier == "quick" else 600
     if ctx.replay:
         c = ctx.replay["case"]
         fam = {"family": c["family"], "unique_outputs": False}
